@@ -128,7 +128,7 @@ func ZZ_C10_H1() {
 		// the peer's answer for this exchange is appended to every connection that is still
 		// open (one of them may be reused), and served by a new connection otherwise
 		for _, nc := range d.conns {
-			if nc.Closed == 0 && outcome != zzDialError {
+			if nc.Closed == 0 && outcome != zzDialError && !cancelled { // a request that is never sent gets no answer
 				nc.In = append(nc.In, zzPeerBytes(outcome, curMarker)...)
 				if outcome == zzWriteError {
 					nc.WriteErrAt = nc.Writes
